@@ -274,3 +274,70 @@ def well_known_names(prog, rep, rule):
                     func=cf.qualname,
                     found='Community.parse renders %r; Community.construct looks up %r, which maps to %s' % (
                         name, n2, S2I.get(n2)), expected='0x%08x' % val, key=key)
+
+
+# ---------------------------------------------------------------------------------------------------
+# off-by-one range guards in encoders
+
+_FIELD_MAX = {2 ** 8 - 1: 1, 2 ** 16 - 1: 2, 2 ** 24 - 1: 3, 2 ** 32 - 1: 4}
+
+
+def _raising_conditions(test):
+    """Atomic comparisons each of which alone sends control into the raising branch."""
+    if isinstance(test, ast.BoolOp) and isinstance(test.op, ast.Or):
+        out = []
+        for v in test.values:
+            out += _raising_conditions(v)
+        return out
+    if isinstance(test, ast.Compare) and len(test.ops) == 1:
+        return [test]
+    return []
+
+
+def boundary_guards(prog, pred, extra_source=None):
+    """Guards `if <cmp>: raise` in the selected functions whose comparison rejects exactly the largest value
+    of a 1/2/3/4-octet field (x >= 2**k - 1, x > 2**k - 2).  Returns (functions scanned, sites)."""
+    sites = []
+    nfun = 0
+
+    def scan(fnode, fold, finfo):
+        for n in ast.walk(fnode):
+            if not isinstance(n, ast.If) or not any(isinstance(x, ast.Raise) for b in n.body for x in ast.walk(b)):
+                continue
+            for c in _raising_conditions(n.test):
+                op = c.ops[0]
+                lv, rv = fold(c.left), fold(c.comparators[0])
+                if isinstance(rv, int) and not isinstance(lv, int):
+                    k, o = rv, op
+                elif isinstance(lv, int) and not isinstance(rv, int):
+                    k = lv
+                    o = {ast.Lt: ast.Gt, ast.LtE: ast.GtE, ast.Gt: ast.Lt, ast.GtE: ast.LtE}.get(type(op), type(op))()
+                else:
+                    continue
+                if isinstance(o, ast.GtE):
+                    accepted_max = k - 1
+                elif isinstance(o, ast.Gt):
+                    accepted_max = k
+                else:
+                    continue
+                if accepted_max + 1 in _FIELD_MAX:
+                    sites.append((finfo, c, accepted_max))
+    for f in prog.all_functions():
+        if pred(f):
+            nfun += 1
+            scan(f.node, lambda e, f=f: prog.try_fold(e, f.module, f.cls), f)
+    if extra_source is not None:
+        def cf(e):
+            try:
+                return ast.literal_eval(e)
+            except Exception:
+                return None
+        scan(ast.parse(extra_source), cf, None)
+    return nfun, sites
+
+
+BOUNDARY_WITNESS = """
+def f(x):
+    if x < 0 or x >= 0xffffffff:
+        raise ValueError(x)
+"""
